@@ -393,8 +393,32 @@ def _consts(xs):
     return [decode_const(int(c)) for c in xs]
 
 
+_alt = [0]
+
+
+def _singletons():
+    import predicate as P
+    from predicate.predicate import is_not_empty_p
+
+    return {"tt": P.always_true_p, "ff": P.always_false_p, "none": P.is_none_p, "notnone": P.is_not_none_p, "truthy": P.is_truthy_p, "falsy": P.is_falsy_p,
+            "empty": P.is_empty_p, "notempty": is_not_empty_p}
+
+
+_SINGLETONS: dict = {}
+
+
 def _lower(sx, share):
     if isinstance(sx, str):
+        # parameterless atoms: alternately the library's module-level object (always_true_p, is_none_p, ...) and a fresh
+        # instance of its class -- equal, but not the same object; nothing may hinge on which one it is
+        _alt[0] += 1
+        if _alt[0] % 2:
+            if not _SINGLETONS:
+                _SINGLETONS.update(_singletons())
+            q = _SINGLETONS[sx]
+            if type(q) is {"tt": AlwaysTruePredicate, "ff": AlwaysFalsePredicate, "none": IsNonePredicate, "notnone": IsNotNonePredicate, "truthy": IsTruthyPredicate,
+                           "falsy": IsFalsyPredicate, "empty": IsEmptyPredicate, "notempty": IsNotEmptyPredicate}[sx]:
+                return q
         return {
             "tt": AlwaysTruePredicate,
             "ff": AlwaysFalsePredicate,
